@@ -30,7 +30,11 @@ What it does
   — a partition of the space by schedule prefix.
 
 * ``ThreadingShim`` stands in for the ``threading`` module inside the module under test
-  (``ak.conn_http.threading = SHIM``): its ``Lock``/``RLock`` are known to the scheduler.  "No enabled
+  (``ak.conn_http.threading = SHIM``): its ``Lock``/``RLock`` are known to the scheduler.
+  ``acquire(timeout=t)`` (t >= 0) on a *held* lock is an ENVIRONMENT choice point: either the thread blocks
+  (disabled until the lock is free) or "the timeout elapsed" (``False`` is returned at once).  The
+  answer is part of the schedule (deviation ``[step, -1]``); ``explore(env_bound=k)`` bounds the number of
+  "elapsed" answers per execution like preemptions.  ``acquire(blocking=False)`` on a held lock is ``False``.  "No enabled
   thread while some thread is unfinished" is a **deadlock**: reported in ``Execution.deadlock``, the
   execution is unwound by raising ``_Abort`` (a ``BaseException``) in every waiting thread.
 
@@ -59,6 +63,7 @@ class _Abort(BaseException):
     """Raised inside managed threads to unwind an execution that cannot continue."""
 
 
+ENV_BLOCK, ENV_TIMEOUT = -2, -1      # pseudo "threads" of an environment choice step
 _ACTIVE = None          # the Scheduler whose execution is in progress (at most one per process)
 _POINTS = {}            # code object -> None (every instruction) | frozenset of offsets
 _TOOL = None
@@ -228,8 +233,8 @@ class SchedLock:
                 self.owner = me
                 self.count += 1
                 return True
-            if not blocking:
-                return False
+            if not blocking or (timeout is not None and timeout >= 0):
+                return False      # nobody is going to release it: the timeout elapses
             raise UncontrolledBlock("a sequential request would wait forever for a lock that was left held")
         if s.aborting:
             return True
@@ -239,6 +244,8 @@ class SchedLock:
                 self.count += 1
                 return True
             if not blocking:
+                return False
+            if timeout is not None and timeout >= 0 and s._env_timeout(me, self):
                 return False
             s._block(me, self)
         self.owner = me
@@ -304,7 +311,7 @@ class Execution:
 
     __slots__ = ("deviations", "nthreads", "nsteps", "cur", "cur_ok", "enabled", "default", "chosen",
                  "labels", "results", "errors", "deadlock", "error", "preemptions", "preempt_in_cs",
-                 "blocked_events", "switches", "lock_ops", "points_per_thread", "obs")
+                 "blocked_events", "switches", "lock_ops", "points_per_thread", "obs", "env_points", "env_answers")
 
     def fingerprint(self):
         return (self.nsteps, tuple(self.chosen), tuple(self.enabled), tuple(map(repr, self.results)),
@@ -315,6 +322,10 @@ class Execution:
         out = []
         for st in range(self.nsteps):
             c, ch = self.cur[st], self.chosen[st]
+            if ch in (ENV_BLOCK, ENV_TIMEOUT):
+                if ch == ENV_TIMEOUT:
+                    out.append(f"step {st}: T{c} acquire(timeout) on held {self.labels[st][1]}: timeout elapsed")
+                continue
             if c != ch:
                 kind = "preempt" if self.cur_ok[st] else "switch"
                 who = "-" if c is None else f"T{c}"
@@ -351,6 +362,8 @@ class Scheduler:
         self._nfin = 0
         self._fin_lock = _thr.Lock()
         self._locks_seen = {}
+        self.env_points = 0
+        self.env_answers = 0
 
     # ---- decisions ------------------------------------------------------------------------
     def _lock_name(self, lock):
@@ -431,6 +444,29 @@ class Scheduler:
         nxt = self._decide(i, True, (label, 0, "explicit point"))
         if nxt != i:
             self._switch(i, nxt)
+
+    def _env_timeout(self, i, lock):
+        """Environment choice point: does the timeout of this acquire elapse?  Default: no (block)."""
+        if self.current != i:
+            self._fail(f"thread T{i} runs while the baton is with T{self.current}", i)
+        if self.aborting:
+            raise _Abort()
+        step = self.nsteps
+        choice = self.dev.get(step, ENV_BLOCK)
+        if choice not in (ENV_BLOCK, ENV_TIMEOUT):
+            self._fail(f"schedule not applicable: step {step} is a timeout choice, got {choice}", i)
+        self.t_cur.append(i)
+        self.t_ok.append(False)
+        self.t_enabled.append((ENV_BLOCK, ENV_TIMEOUT))
+        self.t_default.append(ENV_BLOCK)
+        self.t_chosen.append(choice)
+        self.t_label.append(("acquire-timeout", self._lock_name(lock)))
+        self.nsteps = step + 1
+        self.env_points += 1
+        if choice == ENV_TIMEOUT:
+            self.env_answers += 1
+            return True
+        return False
 
     def _block(self, i, lock):
         """Thread i found ``lock`` taken: disabled until it is free and the scheduler picks i again."""
@@ -515,6 +551,7 @@ class Scheduler:
         ex.preemptions, ex.preempt_in_cs = self.preemptions, self.preempt_in_cs
         ex.blocked_events, ex.switches, ex.lock_ops = self.blocked_events, self.switches, self.lock_ops
         ex.points_per_thread = list(self.points)
+        ex.env_points, ex.env_answers = self.env_points, self.env_answers
         ex.obs = None            # free slot for the caller's observations
         if self.dev and not ex.error and max(self.dev) >= self.nsteps and not self.deadlock:
             ex.error = f"schedule not applicable: deviation at step {max(self.dev)} but execution has {self.nsteps} steps"
@@ -526,7 +563,7 @@ def count_preemptions(ex):
     return ex.preemptions
 
 
-def _children(ex, bound, rng=None, min_step=0):
+def _children(ex, bound, rng=None, min_step=0, env_bound=0):
     """Deviation lists extending ``ex.deviations`` by one later deviation, within the preemption bound."""
     last = max(ex.deviations[-1][0] if ex.deviations else -1, min_step - 1)
     out = []
@@ -534,6 +571,10 @@ def _children(ex, bound, rng=None, min_step=0):
     for st in range(last + 1, ex.nsteps):
         en = ex.enabled[st]
         if len(en) < 2:
+            continue
+        if en[0] == ENV_BLOCK:
+            if ex.env_answers + 1 <= env_bound:
+                out.append(ex.deviations + [[st, ENV_TIMEOUT]])
             continue
         cost = 1 if ex.cur_ok[st] else 0
         if base + cost > bound:
@@ -547,7 +588,7 @@ def _children(ex, bound, rng=None, min_step=0):
     return out
 
 
-def explore(run, root, bound, visit, shard=(0, 1), expired=None, rng=None, min_step=0):
+def explore(run, root, bound, visit, shard=(0, 1), expired=None, rng=None, min_step=0, env_bound=0):
     """Visit every schedule with <= ``bound`` preemptions that extends deviation list ``root``.
 
     run(deviations) -> Execution ; visit(Execution) is called once per schedule of this shard.
@@ -562,7 +603,7 @@ def explore(run, root, bound, visit, shard=(0, 1), expired=None, rng=None, min_s
     nrun = 1
     if r == 0:
         visit(ex0)
-    stack = [d for d in _children(ex0, bound, rng, min_step) if d[-1][0] % m == r]
+    stack = [d for d in _children(ex0, bound, rng, min_step, env_bound) if d[-1][0] % m == r]
     stack.reverse()
     while stack:
         if expired is not None and expired():
@@ -573,7 +614,7 @@ def explore(run, root, bound, visit, shard=(0, 1), expired=None, rng=None, min_s
         if ex.error:
             raise HarnessError(f"schedule {dev}: {ex.error}")
         visit(ex)
-        kids = _children(ex, bound, rng)
+        kids = _children(ex, bound, rng, 0, env_bound)
         kids.reverse()
         stack.extend(kids)
     return nrun, True
